@@ -76,9 +76,10 @@ Theorem C06_reads_invisible : forall rx am s o s' w ops,
 Proof. exact reads_invisible. Qed.
 Print Assumptions C06_reads_invisible.
 
-(* Outside the quantifier of the property (RS changes), recorded as an observation: the lazy
-   split consults the CURRENT RS / INPUTMODE, so with an RS change in the continuation a
-   read is visible: $0="a,b<NL>c" (FS=","), [x=$1;] RS=""; NF gives 2 with the read, 3 without *)
+(* Full statement (any continuation): FALSE on the pinned tree (F-C06-5).  The lazy split
+   consults the CURRENT RS / INPUTMODE (FS is saved with the record, these are not), so with
+   an RS change in the continuation a read is visible:
+   $0="a,b<NL>c" (FS=","), [x=$1;] RS=""; NF gives 2 with the read, 3 without *)
 Theorem C06_reads_invisible_rs_refuted : ~ reads_invisible_full_statement.
 Proof. exact reads_invisible_rs_refuted. Qed.
 Print Assumptions C06_reads_invisible_rs_refuted.
